@@ -558,6 +558,6 @@ func main() {
 		Rule: "(send) random sequences of 1-6 messages (compressed or not, text/binary/ping, payload {0,1,200,70000}) written through wsutil.Writer with wsflate.MessageState attached (alone, or together with another extension setting RSV3, in either order), buffer sizes {8,16,125,126,4096}, Write/WriteThrough/FlushFragment mixed, Reset or ResetOp between messages, all three sides; the output is parsed by the reference parser and every frame's RSV is compared with the model. " +
 			"(receive) every valid frame sequence up to depth 3 (quick) / 4 (thorough) x EVERY RSV pattern 0..7 on every frame x both sides through wsutil.Reader{Extensions: MessageState}, plus random sequences: IsCompressed after the first frame and at message end, header RSV1 cleared with RSV2/3 untouched, RSV1 on continuation/control rejected as ws.ProtocolError. (end to end) compressed+fragmented+masked messages through wsflate.Writer -> wsutil.Writer -> wsutil.Reader -> wsflate.Reader. distinct = configuration / (shape, outcome) classes.",
 		Assumptions: []string{"reference frame parser/encoder", "Go's compress/flate as codec in the end-to-end path"},
-		Subs:        []mon.Sub{subSend(), subReceive(), subReceiveRandom(), subEndToEnd()},
+		Subs:        []mon.Sub{subSend(), subReceive(), subReceiveRandom(), subEndToEnd(), subBitHelpers()},
 	})
 }
